@@ -219,7 +219,7 @@ def c06_dispatch(report, cfg):
             report.ok("R6.6", ikey)
         else:
             cpu = sorted({n for n, _ in bv.support(got) if n.startswith("cpu.")})
-            report.violated("R6.6", ikey, "F8 through the dispatcher differs from the specification%s" % (" and depends on CPU detection %s" % cpu if cpu else ""))
+            report.violated("R6.6", ikey, "F8 through the dispatcher differs from the specification%s" % (" and depends on CPU detection %s" % cpu if cpu else ""), graphs=(got, spec_f8(h, m)))
     engine_guard(go, report, "R6.6", ikey)
 
 
@@ -365,9 +365,9 @@ def c06_update(report, cfg):
                 buf2, _, _ = by_name(it, v2, t, "buffer")
                 pos2, _, _ = by_name(it, buf2, bt, "pos")
                 if it.to_bits(st2, stt) != x:
-                    report.violated("R6.7", ikey, "update does not feed exactly the complete blocks of the stream to F8")
+                    report.violated("R6.7", ikey, "update does not feed exactly the complete blocks of the stream to F8", graphs=(it.to_bits(st2, stt), x))
                 elif dl2 != bv.add(dl, bv.const(ln, 64)):
-                    report.violated("R6.7", ikey, "update does not add the number of input bytes (%d) to the length counter" % ln)
+                    report.violated("R6.7", ikey, "update does not add the number of input bytes (%d) to the length counter" % ln, graphs=(dl2, bv.add(dl, bv.const(ln, 64))))
                 elif bv.const_value(pos2) != (p + ln) % 64:
                     report.violated("R6.7", ikey, "wrong number of buffered bytes after update")
                 else:
